@@ -162,6 +162,8 @@ func RunOnce(chk FullCheck, sc *Scenario, tag string, replay bool) (*Violation, 
 				v = &Violation{Prop: prop, Oracle: "start-up", Sig: "start-up failed:" + scrubNumbers(firstWords(be.Err, 6)), Detail: be.Error() + "\n" + be.Stderr + "\n" + trimStacks(be.Stacks)}
 				err = nil
 			}
+		} else if errors.Is(err, ErrPlannedCrash) {
+			err = fmt.Errorf("%w: planned crash not handled by the check: %v", ErrInfra, err)
 		} else if errors.As(err, &we) {
 			// a wedge during a well-formed workload: the server stopped serving
 			v = &Violation{Prop: "C20", Oracle: "wedged", Sig: "wedged:" + firstWords(we.What, 2), Detail: "server wedged: " + we.What + "\n" + we.Stacks}
